@@ -46,6 +46,9 @@ type Layer struct {
 	// 1 unquoted rel, 2 no space after ';', 3 a further parameter, 4 a relation list that contains next,
 	// 5 an absolute URL
 	LinkForm int `json:"link_form,omitempty"`
+	// BlankPage > 0: the client's BlankPage-th listing request is answered 200 with an empty body (a
+	// broken front end); that is no page at all, not an empty last page
+	BlankPage int `json:"blank_page,omitempty"`
 
 	After int `json:"after,omitempty"` // fault: error delivered after this many items
 	// Gone (fault, tags listed from the start only): instead, the first request is served and every
@@ -196,6 +199,26 @@ func (g gone) Tags(ctx context.Context, r, startAfter string) ociregistry.Seq[st
 
 var baseManifest = []byte(`{"opaque":"base of the referrers"}`)
 
+// blanking answers the at-th listing request with an empty 200.
+type blanking struct {
+	rt    http.RoundTripper
+	at    int
+	n     int
+	fired *bool
+}
+
+func (b *blanking) RoundTrip(req *http.Request) (*http.Response, error) {
+	if req.Method == "GET" && (strings.HasSuffix(req.URL.Path, "/tags/list") || strings.HasSuffix(req.URL.Path, "/_catalog") || strings.Contains(req.URL.Path, "/referrers/")) {
+		b.n++
+		if b.n == b.at {
+			*b.fired = true
+			return &http.Response{StatusCode: 200, Status: "200 OK", Header: http.Header{"Content-Type": {"application/json"}}, Body: http.NoBody, ContentLength: 0,
+				Request: req, Proto: "HTTP/1.1", ProtoMajor: 1, ProtoMinor: 1}, nil
+		}
+	}
+	return b.rt.RoundTrip(req)
+}
+
 // relink is a front end that re-spells Link headers in equivalent forms.
 type relink struct {
 	h    http.Handler
@@ -326,6 +349,7 @@ func run(s Script, v *vt.V) {
 	}()
 	faultBelow, tooLarge := false, false
 	goneFired, hasGone := false, false
+	blankFired := false
 	denied := map[string]bool{}
 	shape := []string{}
 	for i, l := range s.Stack {
@@ -371,7 +395,19 @@ func run(s Script, v *vt.V) {
 			}
 			srv := memnet.NewServer(handler)
 			closers = append(closers, srv.Close)
-			c, err := ociclient.New(srv.Host, &ociclient.Options{Insecure: true, ListPageSize: l.Page, Transport: srv.Transport()})
+			var tr http.RoundTripper = srv.Transport()
+			// (only for the topmost client: below another hop each page is a call of its own, and a
+			// fault that hits one of them and not the next is a registry that changes under the listing)
+			topmost := true
+			for _, l2 := range s.Stack[i+1:] {
+				if l2.Kind == "http" {
+					topmost = false
+				}
+			}
+			if l.BlankPage > 0 && topmost {
+				tr = &blanking{rt: tr, at: l.BlankPage, fired: &blankFired}
+			}
+			c, err := ociclient.New(srv.Host, &ociclient.Options{Insecure: true, ListPageSize: l.Page, Transport: tr})
 			if err != nil {
 				v.Failf("harness", "%v", err)
 				return
@@ -572,9 +608,12 @@ func run(s Script, v *vt.V) {
 				return false
 			}
 		}
-		healthy := !faultBelow && !goneFired && !tooLarge && !(repoDenied && s.Kind != "repos")
+		healthy := !faultBelow && !goneFired && !blankFired && !tooLarge && !(repoDenied && s.Kind != "repos")
 		if goneFired {
 			v.Class("repository-gone-while-paging")
+		}
+		if blankFired {
+			v.Class("blank-page")
 		}
 		if s.CancelAfter > 0 && s.CancelAfter <= len(got) && healthy {
 			// the context was cancelled under the iteration: it may run to completion all the same or end
@@ -595,6 +634,11 @@ func run(s Script, v *vt.V) {
 					return false
 				}
 			}
+			return true
+		}
+		if blankFired && !faultBelow && !goneFired && !tooLarge && len(errs) == 0 && fmt.Sprint(got) == fmt.Sprint(wantNames) {
+			// the blank answer was absorbed below (a server that already had its page did not
+			// look further): the listing is complete all the same
 			return true
 		}
 		if !healthy && (stop < 0 || stop > len(got)) && !(faultBelow && !tooLarge && !repoDenied && false) {
@@ -631,7 +675,7 @@ func run(s Script, v *vt.V) {
 	if s.CancelAfter > 0 {
 		v.Class("cancelled-midway")
 	}
-	if s.Twice && !faultBelow && !hasGone && !tooLarge && s.CancelAfter == 0 {
+	if s.Twice && !faultBelow && !hasGone && !blankFired && !tooLarge && s.CancelAfter == 0 {
 		v.Class("iterated-twice")
 		if !check("second pass", -1) {
 			return
@@ -721,6 +765,9 @@ func genScript(t *rapid.T) Script {
 			l := Layer{Kind: "http", Page: page, OmitLink: rapid.Bool().Draw(t, "omitLink")}
 			if !l.OmitLink && rapid.IntRange(0, 2).Draw(t, "relink") == 0 {
 				l.LinkForm = rapid.IntRange(1, 5).Draw(t, "linkForm")
+			}
+			if rapid.IntRange(0, 7).Draw(t, "blank") == 0 {
+				l.BlankPage = rapid.IntRange(1, 3).Draw(t, "blankPage")
 			}
 			if hops == 2 {
 				l.Page = rapid.SampledFrom([]int{1, 2, 3, 0}).Draw(t, "page2")
@@ -837,7 +884,7 @@ func genScript(t *rapid.T) Script {
 var prop = &vt.Prop[Script]{
 	ID:   "C05",
 	Name: "Listings",
-	Rule: "(an injected fault is an error after k items or, for tags, a repository that is removed while a client is paging: the first request is served, requests to go on are answered NAME_UNKNOWN; a third of the servers that send Link headers sit behind a front end that re-spells the header in an equivalent RFC 8288 form: unquoted rel, no space, a further parameter, a relation list containing next, an absolute URL; a sixth of the consumers cancel the listing's context after k items and go on accepting: the iteration then ends with an error or delivers the complete list) repositories / tags / referrers listings over generated contents (sizes {0,1,p-1,p,p+1,2p-1,2p,2p+1,3p+1} for client page size p in {1,2,3,5,default}), through stacks of <= 4 layers drawn from {http (<= 2 hops; MaxListPageSize absent / equal / above / below the client's page; Link on/off), debug, select(deny set), sub(prefix, with siblings px9, px9ey/x, px9-tools, px9.d/x outside it), unify(second member equal / overlapping / disjoint / repository unknown; both policies), fault(error after j items)}; start-after in {absent, an element, between elements, before all, after all, URL metacharacters & = ? % + space # and non-ASCII}; consumer stops after k items for k in {never,0,1,2,3,n,n+1}; optional second iteration of the same Seq; monitors between all layers check that no consumer is invoked after declining or after an error; oracle = independently computed sorted, de-duplicated, filtered, strictly-after list; a healthy stack must deliver exactly it, a stack with a failing layer must end with an error; non-trivial = at least one page boundary or a non-empty start point; distinct = (kind, stack shape, expected length, page size, start, stop class)",
+	Rule: "(an eighth of the topmost clients get one listing request answered 200 with an empty body: the iteration must end with an error; an injected fault is an error after k items or, for tags, a repository that is removed while a client is paging: the first request is served, requests to go on are answered NAME_UNKNOWN; a third of the servers that send Link headers sit behind a front end that re-spells the header in an equivalent RFC 8288 form: unquoted rel, no space, a further parameter, a relation list containing next, an absolute URL; a sixth of the consumers cancel the listing's context after k items and go on accepting: the iteration then ends with an error or delivers the complete list) repositories / tags / referrers listings over generated contents (sizes {0,1,p-1,p,p+1,2p-1,2p,2p+1,3p+1} for client page size p in {1,2,3,5,default}), through stacks of <= 4 layers drawn from {http (<= 2 hops; MaxListPageSize absent / equal / above / below the client's page; Link on/off), debug, select(deny set), sub(prefix, with siblings px9, px9ey/x, px9-tools, px9.d/x outside it), unify(second member equal / overlapping / disjoint / repository unknown; both policies), fault(error after j items)}; start-after in {absent, an element, between elements, before all, after all, URL metacharacters & = ? % + space # and non-ASCII}; consumer stops after k items for k in {never,0,1,2,3,n,n+1}; optional second iteration of the same Seq; monitors between all layers check that no consumer is invoked after declining or after an error; oracle = independently computed sorted, de-duplicated, filtered, strictly-after list; a healthy stack must deliver exactly it, a stack with a failing layer must end with an error; non-trivial = at least one page boundary or a non-empty start point; distinct = (kind, stack shape, expected length, page size, start, stop class)",
 	Gen:  genScript,
 	Run:  run,
 }
